@@ -2,7 +2,13 @@
    input, compare with what the implementation did, and evaluate the property's executable
    form on the implementation's own outputs.
 
-   case (1 ver thrArg cipher keyseed (pkt ...) (chunk ...))           stream of frames
+   case (1 ver thrArg cipher keyseed (pkt ...) (chunk ...) [mode])    stream of frames (mode: ReadPacket /
+                                                                      ReadHeadBody+UnmarshalPacket; all packets
+                                                                      are looked at after the whole stream)
+   case (5 thrArg cipher keyseed pkt (ver ...))                       the same packet object encoded repeatedly
+        observed ((enc) (dec) (zip) (unzip) ((ver wres rres) ...))
+   case (6 ver thrArg workers iters seed)                             one codec instance, several goroutines
+        observed (frames failures #first)
         observed ((enc) (dec) (zip) (unzip) (wres ...) (rres ...))
           wres = (panicked ret err (#write ...) pkt_after crc_go)
           rres = (panicked errkind pkt consumed wanted maxcap)
@@ -262,10 +268,77 @@ Definition check_limit (ver : Z) (nref bodylen : N) (thrArg : Z) (obs : list sx)
   | _ => VBad
   end.
 
+(* ---------------------------------------------------------------------------------- *)
+(* case 5: the same packet object encoded several times; every frame must decode to the
+   original packet.  The model threads the caller's packet (its flag keeps the bits set by
+   the previous encode). *)
+
+Definition same_as_original (ver : Z) (orig q : packet) : bool :=
+  Z.eqb (p_cmd q) (p_cmd orig) && N.eqb (p_seq q) (p_seq orig) && N.eqb (p_flag q) (p_flag orig)
+  && bytes_eqb (body_bytes (p_body q)) (body_bytes (p_body orig))
+  && (Z.eqb ver 1 ||
+      (Z.eqb (p_typ q) (p_typ orig) && N.eqb (p_node q) (p_node orig)
+       && nlist_eqb (p_refers q) (p_refers orig))).
+
+Fixpoint check_rounds (enc dec zip : bytes -> bytes) (unzip : bytes -> option bytes)
+         (thrArg : Z) (has_c : bool) (orig cur : packet) (rounds : list sx) : verdict :=
+  match rounds with
+  | [] => VOk
+  | SList [SInt ver; w; r] :: rest =>
+      match sx_wobs w, sx_robs r with
+      | Some wo, Some ro =>
+          if negb (Z.eqb ver 1 || Z.eqb ver 2) then VBad else
+          let thr := if Z.eqb ver 1 then thr_v1 thrArg else thr_v2 thrArg in
+          let m := if Z.eqb ver 1 then write_v1 enc zip thr has_c cur else write_v2 enc zip thr has_c cur in
+          let frame := concat (wo_writes wo) in
+          let rd := model_read dec unzip ver has_c (match frame with [] => [] | _ => [frame] end) in
+          let written := negb (wo_err wo) && negb (wo_panic wo) in
+          let corr :=
+            vall [ check_that (Z.eqb (outcome_code (r_out rd)) (if ro_panic ro then (-1)%Z else ro_kind ro))
+                              (VMismatch 4);
+                   check_that (match r_out rd with Ok q => packet_eqb q (ro_pkt ro) | _ => true end)
+                              (VMismatch 5) ] in
+          let prop :=
+            check_that (negb written ||
+                        (negb (ro_panic ro) && Z.eqb (ro_kind ro) 0
+                         && same_as_original ver orig (ro_pkt ro)
+                         && N.eqb (ro_consumed ro) (lenN frame))) (VPropFail 6) in
+          vall [ check_write enc zip ver thr has_c cur wo; prop; corr;
+                 check_rounds enc dec zip unzip thrArg has_c orig (w_pkt m) rest ]
+      | _, _ => VBad
+      end
+  | _ => VBad
+  end.
+
+Definition check_reencode (thrArg cipher : Z) (pk : sx) (obs : list sx) : verdict :=
+  match obs with
+  | [enc_t; dec_t; zip_t; unzip_t; SList rounds] =>
+      match sx_packet pk, sx_table enc_t, sx_table dec_t, sx_table zip_t, sx_otable unzip_t with
+      | Some p, Some te, Some td, Some tz, Some tu =>
+          check_rounds (fun_of_table te) (fun_of_table td) (fun_of_table tz) (fun_of_otable tu)
+                       thrArg (negb (Z.eqb cipher 0)) p p rounds
+      | _, _, _, _, _ => VBad
+      end
+  | _ => VBad
+  end.
+
+(* case 6: one codec instance used by several goroutines: no frame may fail to come back *)
+Definition check_stress (obs : list sx) : verdict :=
+  match obs with
+  | [SInt frames; SInt fails; SBytes _] =>
+      if (0 <? frames)%Z then check_that (Z.eqb fails 0) (VPropFail 6) else VBad
+  | _ => VBad
+  end.
+
 Definition check (c : sx) : verdict :=
   match c with
   | SList [SList [SInt 1%Z; SInt ver; SInt thrArg; SInt cipher; SInt _; pkts; chunks]; SList obs] =>
       if Z.eqb ver 1 || Z.eqb ver 2 then check_stream ver thrArg cipher pkts chunks obs else VBad
+  | SList [SList [SInt 1%Z; SInt ver; SInt thrArg; SInt cipher; SInt _; pkts; chunks; SInt _]; SList obs] =>
+      if Z.eqb ver 1 || Z.eqb ver 2 then check_stream ver thrArg cipher pkts chunks obs else VBad
+  | SList [SList [SInt 5%Z; SInt thrArg; SInt cipher; SInt _; pk; SList _]; SList obs] =>
+      check_reencode thrArg cipher pk obs
+  | SList [SList [SInt 6%Z; SInt _; SInt _; SInt _; SInt _; SInt _]; SList obs] => check_stress obs
   | SList [SList [SInt 3%Z; data; chunks]; SList obs] => check_lendata data chunks obs
   | SList [SList [SInt 4%Z; SInt ver; SInt nref; SInt bodylen; SInt _; SInt thrArg]; SList obs] =>
       if Z.eqb ver 1 || Z.eqb ver 2 then check_limit ver (Z.to_N nref) (Z.to_N bodylen) thrArg obs else VBad
